@@ -130,6 +130,17 @@ def attribute_miri(prop, out):
 def check(prop, tier, seed, out):
     lines = poolgen.gen(tier, seed)
     agg, sigset = run_native_watched(prop, lines, out)
+    # interleavings are sampled: on a loaded machine top up with more jittered histories until enough distinct ones were seen
+    attempt = 0
+    while len(sigset) < 5 and attempt < 4 and not out.violations:
+        attempt += 1
+        more = [l + " fpint=60" for l in poolgen.gen("quick", seed + 1000 * attempt)]
+        agg2, sig2 = run_native_watched(prop, more, out)
+        for k, v in agg2.items():
+            agg[k] = agg.get(k, 0) + v
+        for k, v in sig2.items():
+            sigset[k] = sigset.get(k, 0) + v
+    agg["top_up_rounds"] = attempt
     out.extra["native"] = agg
     out.extra["interleaving_signatures"] = {"distinct": len(sigset), "histogram": {str(k): v for k, v in sorted(sigset.items())},
                                             "legend": "(caller parks [0..3+], last decrement before the caller finished its own call, unpark before the caller's first park)"}
